@@ -83,3 +83,9 @@ Theorem cache_only_frame root cwd ts q : may_change WCacheOnly root cwd ts q = t
 Proof. intros H. exact H. Qed.
 Theorem nothing_frame root cwd ts q : may_change WNothing root cwd ts q = false.
 Proof. reflexivity. Qed.
+
+(* with a task named clean, --clean only runs that task: at most the cache directory changes *)
+Lemma user_clean_cache_only o p n : o_init o = false -> o_fmt o = false -> o_vars o = false -> o_clean o = true ->
+  p_found p = true -> p_loads p = true -> p_has_clean p = true -> (o_quiet o && o_debug o)%bool = false ->
+  write_kind o p n = WCacheOnly.
+Proof. intros A B C D E F G H. unfold write_kind. rewrite A, B, C, D, E, F, G, H. reflexivity. Qed.
